@@ -226,6 +226,18 @@ def run(ctx):
             if ctx.mine(i):
                 compare(ctx, make_case("Task", copy.deepcopy(rs), copy.deepcopy(cs), seq), "exhaustive")
     i = execution_timeout_cases(ctx, i)
+    # long back-offs: hours and days between attempts (the k-th delay is IntervalSeconds x BackoffRate^k whatever its size)
+    for interval, rate, attempts in ((21600, 3.0, 3), (86400, 2.0, 2), (90000, 1.0, 2), (3600, 5.0, 4), (86399, 1.5, 3)):
+        for n_fail in (1, 2, 3, 4):
+            i += 1
+            if not ctx.mine(i):
+                continue
+            seq = [["err", "E1", "x"]] * n_fail + [["ok", {"done": n_fail}]]
+            case = make_case("Task", [{"ErrorEquals": ["E1"], "IntervalSeconds": interval, "MaxAttempts": attempts, "BackoffRate": rate}],
+                             [{"ErrorEquals": ["States.ALL"], "Next": "Caught", "ResultPath": "$.e"}], seq)
+            case["scenario"]["config"] = {"execution_ttl": 10 ** 8}
+            ctx.count("long_backoff_cases")
+            compare(ctx, case, "long-backoff")
     # sampled part
     n = ctx.pick(2500, 100000)
     for k in range(n):
